@@ -274,7 +274,7 @@ psRes_t psPkcs8ParsePrivBin(psPool_t *pool,
         {
             return PS_FAILURE;
         }
-        if ((*p++ != ASN_OCTET_STRING) ||
+        if ((uint32) (end - p) < 1 || (*p++ != ASN_OCTET_STRING) ||
             getAsnLength(&p, (int32) (end - p), &len) < 0 ||
             (uint32) (end - p) < len ||
             len != 8)
